@@ -842,9 +842,29 @@ func r148(c *an.Ctx) {
 				}
 				// an error captured from an interceptor that neutralised the write
 				if load, isLoad := v.(*ssa.UnOp); isLoad && load.Op == token.MUL {
+					var stores []*ssa.Store
+					found := false
 					if cell := an.CellOf(load.X); cell != nil {
+						stores, found = an.StoresTo(cell), true
+					} else if _, sn, fld, isF := an.FieldOf(load.X); isF {
+						// a field of an object of the function whose method is the interceptor (`d := dispenser{…};
+						// InterceptBefore(d.intercept) … return d.maskedErr`): judged by who assigns that field
+						for _, f := range c.Prog.FuncsIn("pkg/trait") {
+							if f.Package() != fn.Package() {
+								continue
+							}
+							an.Instrs(f, func(in ssa.Instruction) {
+								if st, isSt := in.(*ssa.Store); isSt {
+									if _, sn2, fld2, isF2 := an.FieldOf(st.Addr); isF2 && sn2 == sn && fld2 == fld {
+										stores, found = append(stores, st), true
+									}
+								}
+							})
+						}
+					}
+					if found {
 						okCell, seenStore := true, false
-						for _, st := range an.StoresTo(cell) {
+						for _, st := range stores {
 							if an.IsNilConst(st.Val) {
 								continue
 							}
@@ -855,17 +875,20 @@ func r148(c *an.Ctx) {
 								continue
 							}
 							seenStore = true
-							if len(sf.Params) != 2 {
+							// the interceptor's (old, new) are its last two parameters (a method has its receiver first)
+							np := len(sf.Params)
+							if np != 2 && !(np == 3 && sf.Signature.Recv() != nil) {
 								okCell = false
 								continue
 							}
+							oldP, newP := sf.Params[np-2], sf.Params[np-1]
 							restores := func(in ssa.Instruction) bool {
 								call, ok := in.(*ssa.Call)
 								if !ok || an.CalleeName(call) != "google.golang.org/protobuf/proto.Merge" {
 									return false
 								}
-								a0 := derives(call.Call.Args[0], map[ssa.Value]bool{sf.Params[1]: true}, 0)
-								a1 := derives(call.Call.Args[1], map[ssa.Value]bool{sf.Params[0]: true}, 0)
+								a0 := derives(call.Call.Args[0], map[ssa.Value]bool{newP: true}, 0)
+								a1 := derives(call.Call.Args[1], map[ssa.Value]bool{oldP: true}, 0)
 								return a0 && a1
 							}
 							t, _ := an.PathQuery{Target: func(x ssa.Instruction) bool { _, isRet := x.(*ssa.Return); return isRet }, Avoid: restores}.From(sf, st)
